@@ -129,10 +129,14 @@ fn main() {
             None
         };
 
+        let mut output_failed = false;
         if let Some(outpath) = args.get_one::<String>("OUTPUT") {
             debug!("Opening output file {} ...", outpath);
             match File::create(outpath) {
-                Err(e) => error!("Could not open output file {}: {}.", outpath, e),
+                Err(e) => {
+                    error!("Could not open output file {}: {}.", outpath, e);
+                    output_failed = true;
+                }
                 Ok(file) => {
                     let res = if args.get_flag("cde") {
                         cdecao::io::cdedb::write(
@@ -151,7 +155,10 @@ fn main() {
                     };
                     match res {
                         Ok(_) => debug!("Assignment written to {}.", outpath),
-                        Err(e) => error!("Could not write assignment to {}: {}.", outpath, e),
+                        Err(e) => {
+                            error!("Could not write assignment to {}: {}.", outpath, e);
+                            output_failed = true;
+                        }
                     }
                 }
             }
@@ -167,6 +174,10 @@ fn main() {
                     possible_rooms.as_deref(),
                 )
             );
+        }
+
+        if output_failed {
+            std::process::exit(exitcode::IOERR);
         }
     } else {
         warn!("No feasible solution found.");
